@@ -123,7 +123,7 @@ CHECKS["C05"] = dict(
        "pattern is the identity of concat/Enclose, a later empty alternative is dropped, a positive look-around on an empty "
        "assertion returns the match pattern, a negative one raises EmptyNegativeAssertionException. Holds at any depth by "
        "induction (post-conditions of each step + Inv).",
-  note=PROOF_NOTE + " 'Empty type iff empty text' is part of B1.",
+  note=PROOF_NOTE + " 'Empty type iff empty text' holds for every text (F9: read off the first two statements of __infer_type, whose form is compared each run); B1 also checks it.",
   technique="contract-based deductive verification (Empty clauses of the combinator contracts; z3)",
   design_ref="DESIGN.md section 8 (C05)")
 CHECKS["C08"] = dict(
